@@ -180,6 +180,7 @@ GThorough == GTiny \cup GSmall \cup GMore
 GRows  == { <<3, 1>>, <<3, 2>>, <<3, 3>>, <<3, 4>>, <<2, 5>> }
 GRowsQuick == { <<3, 1>>, <<3, 2>>, <<3, 3>>, <<2, 4>> }
 GWide  == { <<9, 1>>, <<17, 1>>, <<20, 2>>, <<80, 1>>, <<132, 1>>, <<140, 1>> }
+GColm  == { <<132, 1>>, <<133, 1>>, <<200, 2>> }    \* at and beyond the DECCOLM width
 GLong  == { <<300, 1>>, <<1, 300>> }
 GAllW  == { <<w, 1>> : w \in 1..140 }
 GAllWQuick == { <<w, 1>> : w \in {1, 2, 7, 8, 9, 10, 15, 16, 17, 24, 25, 33, 40, 64, 65, 80, 81, 100, 132, 133, 139, 140} }
@@ -196,7 +197,7 @@ ModeNumbers == (0..ModeMax) \cup {96, 160, 192, 224, 800, 1049, 2004, 9999}
 DrawCps == (0..255) \cup {256, 9472, WIDE}
 SweepParams == (0..40) \cup {63, 64, 65, 127, 128, 129, 255, 256, 257, 299, 300, 301, 511, 512, 513, 1023, 1024, 1025, 4095, 4096, 9998, 9999}
 \* all of 0..900 (ASCII, C1, Latin-1, Latin Extended, IPA, combining diacriticals) and members of the classes further up
-SweepChars == (0..900) \cup {4352, 8203, 8204, 8205, 8206, 8232, 8288, 8413, 9786, 12288, 12295, 19968, 44032, 65039, 65279, 65281,
+SweepChars == (0..900) \cup {1541, 1564, 2307, 2366, 94192, 4352, 8203, 8204, 8205, 8206, 8232, 8288, 8413, 9786, 12288, 12295, 19968, 44032, 65039, 65279, 65281,
                              65533, 127462, 128512, 917505, 1114111}
 
 MoveEvents(s) ==
